@@ -76,6 +76,6 @@ def run(ctx):
     wt.scanrun_validate(ctx, "C03", "c03s")
     # stimuli enumerated by ScanRunGen (frame kind x phase of a two-pass scan), judged by ScanRunTrace
     gen = wt.generated_scenarios(ctx, 6 if ctx.tier == "quick" else 60)
-    n5, rej = wt.run_wire(ctx, select=lambda s: s["name"].startswith("gen-"), label="c03g", focus="reply", extra=gen)
+    n5, rej = wt.run_wire(ctx, select=lambda s: s["name"].startswith("gen-"), label="c03g", focus="clean", extra=gen)
     wt.report(ctx, "C03", rej)
     wt.scanrun_validate(ctx, "C03", "c03gs")
